@@ -46,3 +46,131 @@ PROPERTIES: Dict[str, dict] = {}
 def rule_fn(rule_id: str) -> Callable:
     mod, fn = RULES[rule_id].split(':')
     return getattr(importlib.import_module(mod), fn)
+
+
+_ASSUME = [
+    'name and receiver resolution is the checker\'s own (annotations, constructor calls, one-level argument propagation, CHA); '
+    'getattr/setattr with computed names outside the dispatch table are not followed (listed in the evidence)',
+    'user-supplied callbacks, lexers and post-lexers are external code and are not analysed',
+    'implicit exceptions (KeyError, RecursionError ...) and the C-level behaviour of `re` are not modelled',
+]
+
+
+def _p(rules, decides, not_decided, technique, extra_assume=()):
+    return {
+        'rules': rules,
+        'level_text': 'Static analysis of /repo\'s working tree (AST, statement CFG, typed call graph, ownership dataflow): every '
+                      'instance of every rule serving this property is an obligation; all must be discharged. DECIDES: %s '
+                      'DOES NOT DECIDE: %s' % (decides, not_decided),
+        'level_note': 'Structural necessary conditions only, never the behaviour itself. Trusted base: CPython ast front end; the '
+                      'classification tables frozen in /verif/sa/rules (each row one symbol, one reason); own receiver typing '
+                      '(no mypy). ' + ' '.join(extra_assume),
+        'technique': technique,
+        'assumptions': _ASSUME + list(extra_assume),
+    }
+
+
+PROPERTIES.update({
+    'C03': _p(['R-EQHASH', 'R-KEEP-PRED', 'R-PREFIX-PROTOCOL', 'R-AMBIG-INDEX', 'R-NODE-NAME'],
+              'the predicates deciding whether a symbol stays in the tree agree (truth tables); generated helper names carry the prefix '
+              'their consumers strip and users cannot define; wrapper-chain order matches the index computations; node names are '
+              'computed identically by all engines; eq/hash contract of the CNF classes (CYK sets).',
+              'that shaping equals the documented function of the derivation for all grammars; agreement of engine results in general.',
+              'AST sibling-agreement rules: truth-table comparison of extracted predicates, prefix protocol, eq/hash field sets'),
+    'C04': _p(['R-NODECACHE', 'R-EQHASH', 'R-AMBIG-INDEX'],
+              'SPPF symbol nodes are unique per (symbol, start, end) label and every family is attached to the node of its own label; '
+              'packed/token nodes hash consistently with equality; ambiguity-expander indices refer to the unfiltered expansion.',
+              'completeness or soundness of the forest and of its expansion to trees.',
+              'AST idiom/def-use rule over every SymbolNode creation site; eq/hash field sets'),
+    'C05': _p(['R-ORDER-DET', 'R-PRIO-SIBLINGS'],
+              'no order-sensitive consumer on the Earley path iterates a hash-ordered collection, the ordered-set switch is wired end to '
+              'end, no id()/hash()/random in ordering; priority modes rewrite rules and terminals alike, max-aggregation matches the '
+              'child order, both child slots contribute, the sort key is the documented one.',
+              'optimality of the total priority over all derivations.',
+              'typed iteration-site audit with consumer effect classification; sibling-branch agreement'),
+    'C06': _p(['R-NEWLINE-PRED', 'R-POS-AFFINITY', 'R-META-TRIPLES', 'R-REPR-PARAM'],
+              'every token that can contain LF has its newlines counted (the opt-out predicate is conservative); coordinates keep their '
+              'family at every constructor/assignment, start is read before and end after the advance; LineCounter mutators re-establish '
+              'column = char_pos - line_start_pos + 1, line += count, line_start_pos = last newline + 1 (linear normal forms); the dynamic '
+              'scanner\'s running coordinates have the roles the token fields expect; meta propagation copies like to like; the newline '
+              'character is chosen per representation.',
+              'text[start:end] == token (regex semantics); nesting of spans for all grammars.',
+              'argument-binding family check, CFG must-precede, linear-normal-form dataflow, predicate exhaustiveness table'),
+    'C07': _p(['R-LEX-PRECEDENCE', 'R-SERIAL-NORM'],
+              'the sort key is the documented precedence and the sorted list reaches the regex alternation unchanged (slice bounds of the '
+              'chunking agree), for the basic lexer and every per-state lexer; the keyword exception is guarded by equal priority, a full '
+              'match and a flag-subset test whose operands are sets on every construction path.',
+              'tiling/coverage for all inputs; "contextual succeeds whenever basic does".',
+              'sort-key normalisation against the documented order; def-use of the ordered list; guard extraction'),
+    'C08': _p(['R-EXC-DISCIPLINE', 'R-POS-AFFINITY', 'R-TOKEN-NONE-TEST', 'R-SPLIT-TOTAL'],
+              'every raise reachable from parse() is an UnexpectedInput or a tabled configuration/internal/documented class; no broad handler '
+              'swallows; EOFError of next_token is caught by every caller; the offending token / current position is what the error carries; '
+              '$END borrows the last token whenever there is one (identity test, not truthiness); no partial split index on the input path.',
+              'earliest position; exactness of expected/allowed/accepts; implicit exceptions.',
+              'call-graph reachability + raise-site classification table; Engler-style inconsistent-null-test rule'),
+    'C10': _p(['R-SHARED-EFFECTS', 'R-POSTLEX-RESET'],
+              'the complete list of writes reachable from parse/lex/scan/parse_interactive and the interactive API, each classified by an '
+              'ownership dataflow as per-call or shared; a shared write is accepted only as an atomic idempotent lazy publication; post-lexer '
+              'state is reset (to its initial values) per stream.',
+              'races inside user callbacks; interleaved consumption of two lex() generators sharing one Indenter.',
+              'effect analysis over the typed call graph with an ownership (fresh/per-call/shared) dataflow'),
+    'C11': _p(['R-SERIAL-AGREE', 'R-SERIAL-NORM', 'R-SERIAL-NS', 'R-LOAD-REAPPLY', 'R-STANDALONE-CLOSURE'],
+              'a restored object has every attribute its post-load API reads, with the representation its constructor would have given it; '
+              'the parse-table codec agrees on keys and tags; option-derived non-serialised state is re-derived at load; the generated '
+              'stand-alone module is closed under name resolution for its supported API.',
+              'value-level equality of tables after encode/decode for all grammars.',
+              'constructor/deserialiser sibling agreement over attribute sets; static reconstruction of the generated module + name closure'),
+    'C12': _p(['R-CACHE'],
+              'what determines the key and that it is combined injectively; every option outside the key cannot shape the cached object or is '
+              'covered; the file reaches _load only through header and used-files guards; any failure while reading falls back with the '
+              'instance restored; the fall-back rewrites the file in the reader\'s record order.',
+              'value-level equality of the loaded parser (C11); atomicity of the write beyond what the read-side fallback makes harmless.',
+              'def-use/taint inside Lark.__init__, CFG dominance and must-pass-through, writer/reader agreement'),
+    'C13': _p(['R-FORK-ALIAS', 'R-SHALLOW-FORK', 'R-TERM-NAME-PROTOCOL'],
+              'copies made by the fork API share no state that feeding or lexing writes and are coherent (one copied lexer thread in both '
+              'places); shallow forks are only fed with tree-building callbacks off; the terminal/non-terminal classification used by '
+              'accepts() and the expected set recognises every name the loader can produce.',
+              '"resume equals parse" as a value-level statement; stateful user post-lexers shared by forks.',
+              'copy audit (argument freshness / mutability via the written-class set), CFG dominance, string-shape producer/consumer check'),
+    'C14': _p(['R-SCAN-PROGRESS', 'R-SHALLOW-FORK'],
+              'the search position strictly increases per iteration (end of match / candidate + 1), ranges come from the matched tokens, the '
+              'replay parser is fresh per match and fed exactly the accepted prefix then feed_eof(last), the exploratory parse runs without '
+              'callbacks, candidates are searched among non-ignored terminals, the exploratory window carries the full text\'s line state.',
+              'leftmost-longest, no-miss, equality with parse() of the substring.',
+              'loop-progress rule on the CFG (must-pass-through an accepted position update), def-use of the yielded range'),
+    'C15': _p(['R-REPR-PARAM', 'R-WINDOW-BOUNDS'],
+              'no representation-specific constant touches input text outside an isinstance(bytes) split; every regex call on a window passes '
+              'pos and the window end; loops are bounded by the end; counters start from the window. One unrepaired known finding: the start '
+              'side (look-behind, ^, \\b see the buffer before the window).',
+              'value-level equality of trees across representations.',
+              'carrier-based constant-use audit; call-argument shape check with a semantics table for re\'s pos/endpos'),
+    'C16': _p(['R-XFORM-PARITY', 'R-NODE-NAME', 'R-STANDALONE-CLOSURE'],
+              'the four traversals and the embedded path implement the same dispatch, token guard (__visit_tokens__) and Discard filtering, '
+              'children before parents; nodes are named identically at every site; the transformer classes work inside the generated module.',
+              'equality of results for all grammars/transformers; once-per-node counting on DAGs.',
+              'sibling feature extraction and comparison'),
+    'C18': _p(['R-INDENT-PAIRING', 'R-POSTLEX-RESET', 'R-SPLIT-TOTAL', 'R-TOKEN-NONE-TEST'],
+              'one INDENT per push (guarded by width > top), one DEDENT per pop, drain to depth 1 at end of stream, nothing inside brackets, '
+              'DedentError on a dedent to a closed column, width = spaces + tabs*tab_len after the last newline, state reset per stream, no '
+              'partial string operation on the newline token, end-of-stream DEDENTs borrow the last token by identity test.',
+              'agreement with CPython\'s tokenizer on inputs.',
+              'structural push/pop pairing proof over the AST, comparison-operator extraction, reset-set inclusion'),
+    'C20': _p(['R-VISIT-GUARD', 'R-NODECACHE', 'R-EQHASH'],
+              'every push on the walk stack is preceded by the on-path test that diverts to on_cycle; enter/leave bookkeeping is paired; the loop '
+              'ends only on stack exhaustion; visit_*_in overrides schedule only children of their node; node identity discipline as in C04.',
+              'that the forest encodes exactly the derivations; is_ambiguous.',
+              'guard-precedes-push rule, pairing rule, override audit'),
+})
+
+NOT_APPLICABLE = {
+    'C01': 'membership in L(G) for all grammars x inputs is functional correctness of a chart algorithm; no ownership, ordering, pairing or '
+           'agreement fact in the source is a necessary condition specific to it (R-EQHASH/R-NODECACHE cover Earley data structures under C04/C20).',
+    'C02': 'correctness of the DeRemer-Pennello relations and of the automaton is algorithmic and per grammar; a rule pinning one comparison '
+           'operator of the tie-break would be a frozen fragment, not a decision of the property.',
+    'C09': 'exact repetition counts for all 0 <= n <= m are arithmetic facts about small_factors and the (a, b) helper rules: a job for '
+           'arithmetic reasoning (solver/proof families), not for program shape; its "no helper nodes visible" clause is decided under C03.',
+    'C17': 'equivalence with textual inlining over all ways of splitting a grammar is a semantic equality of two compilations; its one '
+           'structural clause (names keep their terminal/rule classification under mangling) is decided under C13.',
+    'C19': 'a value-level round trip over all trees of a grammar class; the tree-matching grammar is a second compilation whose agreement with '
+           'the first is semantic; the predicate the two share (is_discarded_terminal) is checked under C03.',
+}
